@@ -143,6 +143,8 @@ def interesting_ints(funcs, lo=-1000, hi=100000):
                     v = -v if isinstance(v, int) and not isinstance(v, bool) else None
                 elif isinstance(c, ast.Constant):
                     v = c.value
+                elif isinstance(c, ast.Name) and isinstance(f.module.assigns.get(c.id), ast.Constant):
+                    v = f.module.assigns[c.id].value     # a module-level constant used by name
                 else:
                     continue
                 if isinstance(v, int) and not isinstance(v, bool) and lo <= v <= hi:
